@@ -70,7 +70,11 @@ func readValueCounts(p *encoding.Parser, a *ValueCounts) (int64, error) {
 	}
 	var total int64 = 4
 	n := binary.BigEndian.Uint32(b)
-	*a = make(ValueCounts, n)
+	c := n
+	if c > maxPrealloc {
+		c = maxPrealloc
+	}
+	*a = make(ValueCounts, 0, c)
 	for i := uint32(0); i < n; i++ {
 		b, err = p.NextBytes(4)
 		if err != nil {
@@ -89,10 +93,10 @@ func readValueCounts(p *encoding.Parser, a *ValueCounts) (int64, error) {
 			return 0, p.ParseError("error reading value: %v", err)
 		}
 		total += int64(l)
-		(*a)[i] = ValueCount{
+		*a = append(*a, ValueCount{
 			Count: count,
 			Value: string(b),
-		}
+		})
 	}
 	return total, nil
 }
